@@ -714,7 +714,9 @@ class SquareMatrices(SquareMatrixSamplingSet):
 
     def make_det_zero(self, array):
         """Modify an array to have zero determinant, or raise Retry if not possible"""
-        if np.abs(np.linalg.det(array)) < 5e-13:
+        # Compare on the scale of the matrix: the determinant of a small matrix is tiny
+        # without the matrix being singular, and the result is renormalized afterwards
+        if np.abs(np.linalg.det(array)) < 5e-13 * np.linalg.norm(array) ** self.config['dimension']:
             # This is close enough to zero for our purposes!
             # This occurs for real, antisymmetric matrices in odd dimensions, for example.
             return array
